@@ -109,7 +109,10 @@ def gen_ids(r, n, cls, prefix):
                 'observation', 'whole', 'shape', 'data', 'rows', 'columns',
                 'indices', 'indptr', 'OTU ID', 'collapsed_ids', 'Path',
                 'empty', 'raise', 'dense', 'sparse', 'type', 'date',
-                'format', 'self', 'axis']
+                'format', 'self', 'axis', 'sampleid', 'SampleID',
+                'sample-id', 'sample id', 'featureid', 'feature-id',
+                'FeatureID', 'feature id', 'ID', 'Id', 'name', 'index',
+                'OTUID', 'otu id']
         pool = [p if prefix.lower() < 'p' else p + '_' for p in pool]
         r.shuffle(pool)
         return _uniq(r, n, lambda i: pool[i] if i < len(pool)
@@ -260,6 +263,15 @@ def gen_metadata(r, ids, kind, allow_empty_text=True):
                                                                         14)
                 d[name] = [r.choice(_TAXA) for _ in range(ln)]
         md.append(d)
+    if len(cats) > 1 and r.random() < .4:
+        # the same categories on every id, but not written in the same order
+        # on every id (a mapping has no order to rely on)
+        out = []
+        for d in md:
+            items = list(d.items())
+            r.shuffle(items)
+            out.append(dict(items))
+        md = out
     return md
 
 
